@@ -49,8 +49,8 @@ pub fn tokenize_expression(input: &str) -> Result<Vec<Token>, CompilerError> {
         }
 
         if ch == '-' && chars.get(index + 1) == Some(&'>') {
-            let rest = input[index + 2..].trim_start();
-            let parsed = parse_path_identifier(rest).ok_or_else(|| {
+            let rest: String = chars[index + 2..].iter().collect();
+            let parsed = parse_path_identifier(rest.trim_start()).ok_or_else(|| {
                 CompilerError::invalid_source("expected divert target after '->'".to_owned())
             })?;
             tokens.push(Token::DivertTarget(parsed.to_owned()));
@@ -179,16 +179,22 @@ pub fn tokenize_expression(input: &str) -> Result<Vec<Token>, CompilerError> {
                     }
                     index += 1;
                 }
-                let token_text = &input[start..index];
+                // `index` counts characters, not bytes: take the text from `chars`.
+                let token_text: String = chars[start..index].iter().collect();
                 if saw_identifier_tail {
-                    tokens.push(Token::Ident(token_text.to_owned()));
+                    tokens.push(Token::Ident(token_text));
                 } else if saw_dot {
-                    let value = input[start..index].parse::<f32>().map_err(|error| {
+                    let value = token_text.parse::<f32>().map_err(|error| {
                         CompilerError::invalid_source(format!("invalid float literal: {error}"))
                     })?;
+                    if !value.is_finite() {
+                        return Err(CompilerError::invalid_source(format!(
+                            "float literal out of range: {token_text}"
+                        )));
+                    }
                     tokens.push(Token::Float(value));
                 } else {
-                    let value = input[start..index].parse::<i32>().map_err(|error| {
+                    let value = token_text.parse::<i32>().map_err(|error| {
                         CompilerError::invalid_source(format!("invalid integer literal: {error}"))
                     })?;
                     tokens.push(Token::Int(value));
@@ -202,8 +208,8 @@ pub fn tokenize_expression(input: &str) -> Result<Vec<Token>, CompilerError> {
                 {
                     index += 1;
                 }
-                let ident = &input[start..index];
-                match ident {
+                let ident: String = chars[start..index].iter().collect();
+                match ident.as_str() {
                     "true" => tokens.push(Token::Bool(true)),
                     "false" => tokens.push(Token::Bool(false)),
                     "and" => tokens.push(Token::AndAnd),
@@ -211,7 +217,7 @@ pub fn tokenize_expression(input: &str) -> Result<Vec<Token>, CompilerError> {
                     "not" => tokens.push(Token::Bang),
                     "has" => tokens.push(Token::Has),
                     "hasnt" => tokens.push(Token::Hasnt),
-                    _ => tokens.push(Token::Ident(ident.to_owned())),
+                    _ => tokens.push(Token::Ident(ident)),
                 }
             }
             _ => {
@@ -294,9 +300,9 @@ pub fn split_top_level_commas(input: &str) -> Vec<&str> {
     let mut start = 0;
     let mut depth = 0;
     let mut in_string = false;
-    let chars: Vec<char> = input.chars().collect();
 
-    for (index, ch) in chars.iter().enumerate() {
+    // byte offsets: they slice `input`
+    for (index, ch) in input.char_indices() {
         match ch {
             '"' => in_string = !in_string,
             '(' if !in_string => depth += 1,
